@@ -48,6 +48,8 @@ def run_one(lib, prop, case, stats):
         # ambient state inherited from "earlier unrelated calls": errno (0, ERANGE, EINVAL, EDOM), a function of the case
         import ctypes
         ctypes.set_errno((0, 34, 22, 33)[core.h64(case) & 3])
+        # ... and the contents of dead stack slots below the harness' parse calls (untouched, or filled with '7', '1', 'e')
+        lib.probe_set_stack_fill((0, 0x37, 0x31, 0x65)[(core.h64(case) >> 2) & 3])
         prop.run_case(lib, case, stats)
     except Violation:
         reset_lib(lib, prop)
